@@ -188,7 +188,7 @@ theorem handleSuccess_down (a : Agent) (now : Nat) (m : Msg) (l r : Cand) (src :
         have hF := hsFin_pres (wp := True) (ex := True) (a1.modPair p.id (hsMark pd)) p pd
           (hsSel (a1.modPair p.id (hsMark pd)) p pd).1 (hk.inv hi2)
         exact hw.mono (hF.2.toRel.trans
-          ((modPair_core (wp := True) (ex := True) _ p.id (fun p => { p with respRecv := p.respRecv + 1 })
+          ((modPair_core (wp := True) (ex := True) _ p.id (Pair.gotResponse now pd.ts)
             (fun p => ⟨rfl, rfl, rfl, rfl, rfl, rfl, rfl, rfl, rfl, rfl, rfl, rfl⟩)) hF.1).2.toRel)
 
 /-! ## `handleInbound` and `step` -/
